@@ -108,6 +108,15 @@ func (rww *responseWriterWrapper) WriteHeader(status int) {
 	rww.ResponseWriterWrapper.WriteHeader(status)
 }
 
+// Flush implements http.Flusher. A flush commits the header, so the revisions
+// are applied first, exactly as for a first write.
+func (rww *responseWriterWrapper) Flush() {
+	if !rww.wroteHeader {
+		rww.WriteHeader(http.StatusOK)
+	}
+	rww.ResponseWriterWrapper.Flush()
+}
+
 // delHeader deletes the existing header according to the key
 // Also it will delete that header added later.
 func (rww *responseWriterWrapper) delHeader(key string) {
